@@ -94,7 +94,7 @@ def main():
         (out / f"{name}.diff").write_text(diff)
         index[name] = props
     for extra, props in (("c16_merge_default", ["C16"]), ("c16_swing_always", ["C16"]), ("c09_keyerror_only", ["C09"]),
-                         ("c07_dedupe", ["C07"]), ("c07_close_on_error", ["C07"]), ("c18_class_level_flag", ["C18"]), ("c02_range_check_as_assert", ["C02"])):
+                         ("c07_dedupe", ["C07"]), ("c07_close_on_error", ["C07"]), ("c18_class_level_flag", ["C18"]), ("c02_range_check_as_assert", ["C02"]), ("c17_deferred_dispatch", ["C17"])):
         if (out / f"{extra}.diff").exists():
             index[extra] = props
     (out / "INDEX.json").write_text(json.dumps(index, indent=1) + "\n")
